@@ -71,7 +71,7 @@ class Player:
                                        [tok2f(x) for x in maxs], check_bounds=chkb,
                                        check_hitbounds=chk, accept_nan=nanok)
             return "ok"
-        except ValueError:
+        except Exception:
             return "err"
 
     def step(self, act, jitter=0.0):
@@ -97,7 +97,7 @@ class Player:
             else:
                 raise Machinery("unknown action " + op)
             return "ok"
-        except ValueError:
+        except Exception:
             return "err"
 
     @staticmethod
